@@ -222,6 +222,9 @@ pub fn encode_update_with(u: &Upd, as_path_value: &[u8], extra_attrs: &[u8]) -> 
         v.extend_from_slice(&afi.to_be_bytes());
         v.push(s);
         for n in &w_mp { nlri_wire(n, true, &mut v); }
+        // 6: the MP_UNREACH_NLRI list goes on, after its well-formed prefixes, with one of impossible length: the
+        // whole UPDATE is malformed and must change nothing (not even for the prefixes listed before the bad one)
+        if u.corrupt == 6 { v.extend_from_slice(&[200, 1, 2, 3]); }
         attr(0x80, 15, &v, &mut pas);
     }
     let mut nlri = vec![];
@@ -250,6 +253,7 @@ pub fn corrupt_applicable(u: &Upd, k: u8) -> bool {
         1 | 2 | 3 | 4 => true,
         // (not for labelled unicast: routecore 0.5.1 panics on an over-long labelled NLRI, which is C06's business)
         5 => split_half(&u.ann, u.mp4).map(|x| matches!(x.1, Some((_, s)) if s != Safi::X)).unwrap_or(false),
+        6 => split_half(&u.wd, u.mp4).map(|x| matches!(x.1, Some((_, s)) if s != Safi::X)).unwrap_or(false),
         _ => false,
     }
 }
